@@ -321,23 +321,25 @@ func (c *ctx) faults(p pre, o Op, o2 *Op) {
 		c.sec.Extra["single_faults"]++
 		faultDesc := fmt.Sprintf("fault at call %d (%s, %d bytes persisted)", pt.at, rec.Calls[rec.MutIdx[pt.at]].String(), pt.short)
 		replay := map[string]any{"pre": p.name, "op": o, "fault_at": pt.at, "short": pt.short}
+		if err := rec.CheckNotInPlace("db"); err != nil {
+			c.fail("in-place-write-after-fault", p, []Op{o}, faultDesc+": "+err.Error(), replay)
+		}
 		if err == nil {
-			// A swallowed failure matters when the step is part of writing, flushing or
-			// installing the new contents; ignoring an error from a read-only handle or
-			// from removing a leftover is harmless and not demanded by the property.
-			fc := rec.Calls[rec.MutIdx[pt.at]]
-			written := map[string]bool{}
-			for _, cc := range rec.Calls {
-				if cc.Op == "write" || cc.Op == "writeat" || cc.Op == "createtemp" || (cc.Op == "open" && cc.Mutating) {
-					written[cc.Path] = true
+			// The call reports success although a step failed (the code may have retried or worked around it).
+			// Then everything a successful call promises must hold: served state and file hold the post state,
+			// and what was installed was written to a separate file, flushed, and renamed.
+			applyModel(m, o)
+			if d != nil {
+				if k := hx.DumpKey(d); k != m.Key() {
+					c.fail("success-after-fault-state", p, []Op{o}, fmt.Sprintf("%s: the call reported success; served state %s, expected post state %s", faultDesc, k, m.Key()), replay)
 				}
 			}
-			essential := fc.Op == "createtemp" || fc.Op == "write" || fc.Op == "writeat" || fc.Op == "chmod" || fc.Op == "sync" || fc.Op == "rename" || fc.Op == "truncate" || (fc.Op == "open" && fc.Mutating) || (fc.Op == "close" && written[fc.Path])
-			if fc.Op == "sync" && !written[fc.Path] {
-				essential = false
+			copyDir(dir, rdir)
+			if got, rerr := recoverDump(rdir); rerr != nil || got != m.Key() {
+				c.fail("success-after-fault-file", p, []Op{o}, fmt.Sprintf("%s: the call reported success but the file opens as %q err=%v, expected %s", faultDesc, got, rerr, m.Key()), replay)
 			}
-			if essential {
-				c.fail("fault-swallowed", p, []Op{o}, faultDesc+": the call reported success although a step of writing or installing the new contents failed", replay)
+			if perr := rec.CheckAtomicProtocol("db"); perr != nil {
+				c.fail("success-after-fault-protocol", p, []Op{o}, fmt.Sprintf("%s: the call reported success, but %v", faultDesc, perr), replay)
 			}
 			continue
 		}
